@@ -364,6 +364,37 @@ def check(ctx):
                    == [(n("copy"), True)] for _, cond in cpy),
            detail=str([[pretty(a)[:30] + "=" + str(p_) for a, p_ in cond] for _, cond in cpy]),
            stmt="copy guard")
+    # ... and everything the model keeps is derived from the (possibly copied) dicts: a
+    # graph or an order computed from the nodes as they came in would consist of the
+    # ORIGINALS when copy=True
+    from ..core.terms import substitute
+    first = {}
+    for loc, val, _, cond in ri.stores:
+        if loc in (("a", SELF, "_nodes"), ("a", SELF, "_vars")):
+            first.setdefault(loc[2], val)
+    kept = [(loc[2], val, nd) for loc, val, nd, _ in ri.stores if loc[0] == "a" and loc[1] == SELF
+            and loc[2] not in ("_nodes", "_vars", "_auto_update")]
+    pre = [v for v in first.values() if v is not None]
+    stale = []
+    for attr, val, nd in kept:
+        # occurrences of the pre-copy dict that are NOT inside the copy-or-not selection
+        holes = {}
+        for x in subterms(val):
+            if x[0] == "phi" and x[1] == n("copy") and any(p_ in set(subterms(x[3])) or p_ == x[3]
+                                                           for p_ in pre):
+                holes[x] = ("c", "<nodes-or-copies>")
+        rest = substitute(val, holes) if holes else val
+        inner = set(subterms(rest))
+        # (whatever is derived from the argument outside that selection is the originals)
+        if any(p_ in inner for p_ in pre) or n(init.pos_params()[1]) in inner:
+            stale.append((attr, nd))
+    ctx.ob("C15.R5", init, "every graph / order / list the model keeps is computed from "
+                           "self._nodes / self._vars AFTER the optional deep copy (with "
+                           "copy=True nothing refers to the caller's originals)",
+           not stale and len(kept) >= 5, detail=f"from the originals: {[a for a, _ in stale]}; "
+                                                 f"{len(kept)} kept attributes",
+           node=stale[0][1] if stale else None,
+           stmt="computed before the copy: " + ", ".join(a for a, _ in stale))
 
     # ---- structure can only be changed through the guarded mutators: no getter hands out
     # the internal mutable container itself
